@@ -83,6 +83,9 @@ func c09Specs() []c09Spec {
 			Threads: [][]c09Op{{add(m1)}, {{Kind: "get", MB: m1, Ref: "latest"}}, {{Kind: "remove", MB: m1, Ref: "init1"}}}, Bound: [2]int{2, 3}},
 		{ID: "S3-mem-cap1-maxkb-add-add", Store: sys.StoreSpec{Backend: "mem", Cap: 1, MaxKB: 1}, Init: []c09Op{{Kind: "add", MB: m1, Size: 400}},
 			Threads: [][]c09Op{{{Kind: "add", MB: m1, Size: 400}}, {{Kind: "add", MB: m2, Size: 400}}, {{Kind: "add", MB: m1, Size: 300}}}, Bound: [2]int{1, 2}, NoLin: true, LimitB: 1024},
+		// the size limit's victim lives in the mailbox whose cap another delivery is enforcing
+		{ID: "S22-mem-cap1-maxkb-size-victim-in-capped-mailbox", Store: sys.StoreSpec{Backend: "mem", Cap: 1, MaxKB: 1}, Init: []c09Op{{Kind: "add", MB: m1, Size: 600}},
+			Threads: [][]c09Op{{{Kind: "add", MB: m1, Size: 300}}, {{Kind: "add", MB: m2, Size: 600}}}, Bound: [2]int{2, 3}, NoLin: true, LimitB: 1024},
 		{ID: "S1-mem-maxkb-add-remove-add", Store: memKB, Init: []c09Op{add(m1)},
 			Threads: [][]c09Op{{add(m1)}, {{Kind: "remove", MB: m1, Ref: "init1"}}, {add(m1)}}, Bound: [2]int{2, 3}},
 		{ID: "S16-mem-maxkb-fresh-mailbox-add-purge-add", Store: memKB, Init: nil,
